@@ -73,12 +73,20 @@ func (s *socket) addPipe(tp transport.Pipe, d *dialer, l *listener) {
 	p.lock.Lock()
 	if p.closing {
 		p.lock.Unlock()
+		// Closed while attaching: it never reached the protocol, so
+		// Close() did not (and will not) deregister it.
+		s.pipes.Remove(p)
+		pipeIDs.Free(p.id)
 		return
 	}
 	if s.proto.AddPipe(p) != nil {
 		p.lock.Unlock()
 		s.pipes.Remove(p)
-		go p.close()
+		go func() {
+			p.close()
+			// Never attached, so nothing else releases the ID.
+			pipeIDs.Free(p.id)
+		}()
 		return
 	}
 	p.added = true
